@@ -514,7 +514,10 @@ fn batch_schema() -> &'static Schema<BatchQuery, EmptyMutation, EmptySubscriptio
 fn c23_batch(out: &mut CaseOut) {
     world::reset_world();
     let n = if chance(1, 8) { 12 + draw(9) as usize } else { 2 + draw(5) as usize };
-    let dynamic = chance(1, 3);
+    // 0: Schema::execute_batch; 1: the Executor trait on a dynamic schema; 2: the Executor trait on
+    // the static schema (how the web integrations call it)
+    let via = draw(3);
+    let dynamic = via == 1;
     let items: Vec<J> = (0..n)
         .map(|i| {
             if chance(1, 6) {
@@ -532,7 +535,11 @@ fn c23_batch(out: &mut CaseOut) {
     let res = decode("batch", async move {
         let batch = receive_batch_json(reader).await.map_err(|e| format!("{e:?}"))?;
         let decoded = batch_fields(&batch);
-        let resp = if dynamic { async_graphql::Executor::execute_batch(world::dynamic_schema(0), batch).await } else { batch_schema().execute_batch(batch).await };
+        let resp = match via {
+            1 => async_graphql::Executor::execute_batch(world::dynamic_schema(0), batch).await,
+            2 => async_graphql::Executor::execute_batch(batch_schema(), batch).await,
+            _ => batch_schema().execute_batch(batch).await,
+        };
         Ok::<_, String>((decoded, resp))
     });
     let Some(res) = res else {
